@@ -56,6 +56,7 @@ static struct {
     struct vs_slot *slot;
     struct vs_options opt;
     int64_t clock_ns;
+    int spurious_left;
     long cell[VS_NCELL];
     uint64_t new_states;
     long fseq;
@@ -141,7 +142,10 @@ static VCond *cnd(void *addr) {
     return c;
 }
 
-static int is_timeout_alt(const VThread *t) { return (t->state == ST_WAITCV && t->timed && t->m->owner < 0) || (t->state == ST_FUTEX && t->timed); }
+/* A waiter may leave its wait without a notification: a timed wait expires, or - POSIX allows it for every condition wait - a spurious wake-up happens
+ * (generated at most opt.spurious times per execution, each costs 1 from the deviation budget like a preemption). */
+static int is_spurious_alt(const VThread *t) { return t->state == ST_WAITCV && !t->timed && t->m->owner < 0 && G.spurious_left > 0; }
+static int is_timeout_alt(const VThread *t) { return (t->state == ST_WAITCV && t->timed && t->m->owner < 0) || (t->state == ST_FUTEX && t->timed) || is_spurious_alt(t); }
 
 static int enabled(const VThread *t) {
     switch (t->state) {
@@ -164,7 +168,7 @@ static uint64_t fingerprint(void) {
     }
     for (int i = 0; i < G.nm; i++) h = vs_mix(h, (uint64_t)(G.M[i].owner + 1));
     for (int i = 0; i < G.nc; i++) { h = vs_mix(h, G.C[i].nw); for (int k = 0; k < G.C[i].nw; k++) h = vs_mix(h, G.C[i].w[k]); }
-    h = vs_mix(h, (uint64_t)G.clock_ns);
+    h = vs_mix(h, (uint64_t)G.clock_ns + (uint64_t)G.spurious_left);
     for (int i = 0; i < VS_NCELL; i++) if (G.cell[i]) h = vs_mix(h, ((uint64_t)i << 48) ^ (uint64_t)G.cell[i]);
     if (G.opt.state_cb) h = vs_mix(h, G.opt.state_cb());
     return h ? h : 1;
@@ -222,7 +226,8 @@ static void sched(VThread *me) {
     /* a thread that yielded/slept goes after everybody else; switching away from it is free */
     for (int i = 0; i < G.nt; i++) if (G.T[i].state == ST_YIELD) en[n++] = i;
     int nnormal = n;
-    for (int i = 0; i < G.nt; i++) if (is_timeout_alt(&G.T[i])) { en[n++] = i; ntimeout++; }
+    /* a spurious wake-up is only offered while somebody else can run: it must not turn a deadlock (everybody waits, nobody will ever notify) into progress */
+    for (int i = 0; i < G.nt; i++) if (is_timeout_alt(&G.T[i]) && (nnormal > 0 || !is_spurious_alt(&G.T[i]))) { en[n++] = i; ntimeout++; }
 
     if (n == 0) {
         char buf[1024]; int o = 0;
@@ -248,12 +253,17 @@ static void sched(VThread *me) {
         next->timedout = 1; next->state = ST_READY; next->faddr = NULL;
         if (G.clock_ns < next->deadline_ns) G.clock_ns = next->deadline_ns;
         log_event(VS_EV_TIMEOUT, next->id, 1, 0);
-    } else if (is_timeout_alt(next)) {          /* the timed wait expires */
+    } else if (is_timeout_alt(next)) {          /* the timed wait expires, or the wait ends spuriously */
+        int spurious = is_spurious_alt(next);
         VCond *c = next->cv;
         for (int k = 0; k < c->nw; k++) if (c->w[k] == next->id) { memmove(&c->w[k], &c->w[k + 1], (c->nw - k - 1) * sizeof(int)); c->nw--; break; }
-        next->timedout = 1; next->state = ST_LOCK; next->cv = NULL;
-        if (G.clock_ns < next->deadline_ns) G.clock_ns = next->deadline_ns;
-        log_event(VS_EV_TIMEOUT, next->id, 0, 0);
+        next->state = ST_LOCK; next->cv = NULL;
+        if (spurious) { next->timedout = 0; G.spurious_left--; log_event(VS_EV_TIMEOUT, next->id, 2, 0); }
+        else {
+            next->timedout = 1;
+            if (G.clock_ns < next->deadline_ns) G.clock_ns = next->deadline_ns;
+            log_event(VS_EV_TIMEOUT, next->id, 0, 0);
+        }
     }
     if (next != me) {
         G.running = next->id;
@@ -294,6 +304,7 @@ void vs_begin(struct vs_slot *slot, const struct vs_options *opt) {
     memset(G.cell, 0, sizeof G.cell);
     G.slot = slot; G.opt = *opt;
     if (G.opt.horizon <= 0) G.opt.horizon = 20000;
+    G.spurious_left = G.opt.spurious;
     G.clock_ns = 1700000000LL * 1000000000LL;
     slot->rec.n = 0; slot->nev = 0; slot->outcome = VS_OUT_RUNNING; slot->msg[0] = 0; slot->steps = 0; slot->parked_any = 0;
     G.T[0].id = 0; G.T[0].state = ST_READY; G.T[0].real = pthread_self();
